@@ -47,7 +47,9 @@ def get_cg_coef(j1, j2, m1, m2, j, m):
     assert j2 >= 0
     assert j >= 0
     if j1 == 0 or j2 == 0:
-        return 1.0
+        if j == j1 + j2 and abs(m1) <= j1 and abs(m2) <= j2:
+            return 1.0
+        return 0.0
     sign = 1
     if j1 < j2:
         if (j1 + j2 - j) % 2 == 1:
@@ -55,9 +57,12 @@ def get_cg_coef(j1, j2, m1, m2, j, m):
         j1, j2 = j2, j1
         m1, m2 = m2, m1
 
+    def key(x):
+        return str(int(x)) if x == int(x) else str(x)
+
     def find_cg_table(j1, j2, m1, m2, j, m):
         try:
-            return cg_table[str(j1)][str(j2)][str(m1)][str(m2)][str(j)][str(m)]
+            return cg_table[key(j1)][key(j2)][key(m1)][key(m2)][key(j)][key(m)]
         except:
             return 0.0
 
